@@ -271,6 +271,11 @@ int main(int argc, char *argv[])
 
         int i = 0;
         while (i < num_acf_msgs) {
+            // Send what has been packed so far if one more message may not fit
+            if (pdu_length + AVTP_CAN_HEADER_LEN +
+                    (can_variant == AVTP_CAN_FD ? CANFD_MAX_DLEN : CAN_MAX_DLEN) > MAX_PDU_SIZE)
+                break;
+
             // Get payload -- will 'spin' here until we get the requested number
             //                of CAN frames.
             if(can_variant == AVTP_CAN_FD){
